@@ -175,6 +175,7 @@ MUTANTS = [
     m("C08-create-outside-lock", "C08", "C08.R2", P, "                obj = self._obj_creator()\n\n            self._used_objs.append(obj)\n            obj._last_used = now\n            return obj", "                obj = None\n            if obj is not None:\n                self._used_objs.append(obj)\n                obj._last_used = now\n                return obj\n        obj = self._obj_creator()\n        with self._lock:\n            self._used_objs.append(obj)\n            obj._last_used = now\n            return obj"),
     m("C08-destroy-always-closes", "C08", "C08.R3", P, "        if was_dropped and self._after_remove is not None:", "        if self._after_remove is not None:"),
     m("C08-client-escapes", "C08", "C08.R5", B, "        with self.client_pool.get_and_release(destroy_on_fail=True) as client:\n            return client.version()", "        with self.client_pool.get_and_release(destroy_on_fail=True) as client:\n            self._last_client = client\n            return client.version()"),
+    m("C08-get-creates-outside-hold", "C08", "C08.R2", P, "                obj = self._obj_creator()\n\n            self._used_objs.append(obj)\n            obj._last_used = now\n            return obj\n", "                obj = None\n\n            if obj is not None:\n                self._used_objs.append(obj)\n                obj._last_used = now\n                return obj\n        obj = self._obj_creator()\n        obj._last_used = now\n        with self._lock:\n            self._used_objs.append(obj)\n        return obj\n"),
     # ---------------- C09
     m("C09-destroy-on-fail-false", "C09", "C09.R1", B, "        with self.client_pool.get_and_release(destroy_on_fail=True) as client:\n            return client.set(key, value", "        with self.client_pool.get_and_release(destroy_on_fail=False) as client:\n            return client.set(key, value"),
     m("C09-double-release", "C09", "C09.R2", P, "            raise\n        self.release(obj)\n", "            raise\n        finally:\n            self.release(obj)\n        self.release(obj)\n"),
@@ -235,6 +236,8 @@ MUTANTS = [
     m("C15-default-serialize-flags-one", "C15", "C15.R8", S, "    def _default_serialize(self, key, value):\n        return value, 0\n", "    def _default_serialize(self, key, value):\n        return value, 1\n"),
     m("C15-silent-decompress-clears-bit", "C15", "", S, "            value = self._decompress(value)\n", "            value = self._decompress(value)\n            flags ^= FLAG_COMPRESSED\n", kind="silent"),
     m("C15-silent-default-serde-ifexp", "C15", "", S, "        self.serialize = serializer_func or self._default_serialize\n", "        self.serialize = self._default_serialize if serializer_func is None else serializer_func\n", kind="silent"),
+    m("C15-compress-failure-swallowed", "C15", "C15.R5", S, "            value = self._compress(value)\n", "            try:\n                value = self._compress(value)\n            except Exception:\n                pass\n"),
+    m("C15-silent-compress-failure-reraised", "C15", "", S, "            value = self._compress(value)\n", "            try:\n                value = self._compress(value)\n            except Exception:\n                raise\n", kind="silent"),
     # ---------------- C16
     m("C16-drop-flags", "C16", "C16.R2", B, "            return client.add(key, value, expire=expire, noreply=noreply, flags=flags)", "            return client.add(key, value, expire=expire, noreply=noreply)"),
     m("C16-drop-default-noreply", "C16", "C16.R3", H, '            "default_noreply": default_noreply,\n', ""),
@@ -268,6 +271,8 @@ MUTANTS = [
     m("C20-no-nul", "C20", "C20.R1", B, '    elif b"\\00" in key:', '    elif False and b"\\00" in key:'),
     m("C20-valueerror", "C20", "C20.R4", B, '        raise MemcacheIllegalInputError("Key is too long: %r" % key)', '        raise ValueError("Key is too long: %r" % key)'),
     m("C20-pooled-no-prefix", "C20", "C20.R5", B, "            key, allow_unicode_keys=self.allow_unicode_keys, key_prefix=self.key_prefix\n", "            key, allow_unicode_keys=self.allow_unicode_keys\n"),
+    m("C20-message-decodes-slice", "C20", "C20.R4", B, '        raise MemcacheIllegalInputError("Key is too long: %r" % key)', '        raise MemcacheIllegalInputError("Key is too long: %s..." % key[:60].decode("utf8"))'),
+    m("C20-silent-message-decodes-replace", "C20", "", B, '        raise MemcacheIllegalInputError("Key is too long: %r" % key)', '        raise MemcacheIllegalInputError("Key is too long: %s..." % key[:60].decode("utf8", "replace"))', kind="silent"),
     m("C20-silent-strip-form", "C20", "", B, '    elif len(parts) > 1 or (parts[0] if parts else b"") != key:', "    elif len(parts) != 1 or parts[0] != key:", kind="silent"),
 ]
 
